@@ -43,6 +43,11 @@ GEOMS = {
     'bl': dict(df=2.7939677238464355, dt=18.253611008, fch1=6095.214842353016e6),
     # Breakthrough Listen mid-resolution product at the hydrogen line (dt < df)
     'mid': dict(df=2861.02294921875, dt=1.073741824, fch1=1.42040575e9),
+    # decimal resolutions: df/dt is not exactly representable, so integer multiples of the unit drift rate probe the
+    # float formula behind the sub-step count
+    'dec1': dict(df=0.1, dt=3.3, fch1=1.0e6),
+    'dec2': dict(df=10.0, dt=1.073741824, fch1=1.0e9),
+    'dec3': dict(df=0.1, dt=18.253611008, fch1=1.0e6),
 }
 TCHANS = [1, 2, 8]
 TCHANS_T = [1, 2, 3, 8, 16]
@@ -159,16 +164,20 @@ def _helper(fr, c, f_start, drift, width, smear):
 
 
 def _substep_candidates(fr, drift, smear):
-    """max(1, ceil(|drift|/unit)); an exact-integer ratio that the float division may land on either
-    side of is not decided by the oracle (rule 1)."""
+    """max(1, ceil(|drift|/unit drift)), decided on the exact quotient q of the two floats.  q at or just below an integer
+    n: ceil(q) = n, and the documented expression evaluated in floating point (one correctly rounded division, monotone)
+    gives n as well -- decided.  q just ABOVE an integer n (by less than 1e-9 relative): the exact count is n+1 but the
+    rounded division may return n -- both accepted (rule 1).  A differently associated formula (|drift|*dt/df) that lands
+    above n where q <= n is a different count."""
     if not smear:
         return [1]
-    r = abs(F(drift)) / F(fr.df / fr.dt)       # unit drift = one channel width per time step (the frame's own positive df, dt)
-    if r.denominator == 1 and math.frexp(fr.df)[0] == 0.5 and math.frexp(fr.dt)[0] == 0.5:
-        # df and dt are powers of two: every float formula for the ratio is exact, so the count is decided
-        return [max(1, int(r))]
-    e = Fr(1, 10**9)
-    return sorted(set([max(1, math.ceil(r * (1 - e))), max(1, math.ceil(r * (1 + e)))]))
+    q = abs(F(drift)) / F(fr.df / fr.dt)       # unit drift = one channel width per time step (the frame's own positive df, dt)
+    c = max(1, math.ceil(q))
+    out = {c}
+    fl = math.floor(q)
+    if q > fl and (q - fl) < Fr(1, 10**9) * q:
+        out.add(max(1, fl))
+    return sorted(out)
 
 
 def _centres(fr, f_start, drift, smear, nsub):
@@ -459,6 +468,15 @@ def run(ctx):
     for st in ('quantity_scaled', 'np_f32', 'np_i64', 'py_int'):
         cases += [dict(c, style=st) for c in base]
     cases += [dict(c, negdf=True, asc=a) for c in base for a in (True, False)]
+    # whole-channel drifts (1..4 channels per step, either sign) with smearing in the decimal geometries
+    for geom in ('dec1', 'dec2', 'dec3'):
+        for asc in (True, False):
+            for prof in ('box', 'gaussian'):
+                for pos in (24.0, 24.3):
+                    for width in (1.0, 2.5):
+                        for drift in (1.0, -1.0, 2.0, -2.0, 3.0, -3.0, 4.0, -4.0):
+                            cases.append(dict(geom=geom, asc=asc, tchans=2, pos=pos, drift=drift, width=width, prof=prof,
+                                              smear=True, style='plain', seed=seed))
     ctx.pmap(case_const, cases)
     exact = []
     for asc in (True, False):
